@@ -65,7 +65,8 @@ CALLS: Dict[str, Dict[str, FrozenSet[str]]] = {
     "builtins.min": {"ANY": E({TE, VE})},
     "builtins.max": {"ANY": E({TE, VE})},
     "builtins.abs": {"ANY": E({TE}), "int": NONE, "float": NONE, "bool": NONE},
-    "builtins.round": {"ANY": E({TE, VE, OE}), "int": NONE, "bool": NONE, "float": E({VE, OE})},
+    "builtins.round": {"ANY": E({TE, VE, OE}), "int": NONE, "bool": NONE, "float": E({VE, OE}),
+                       "Decimal": E({VE, OE})},     # round(Decimal('NaN')) -> ValueError, round(Decimal('Infinity')) -> OverflowError
     "builtins.bytes": {"ANY": E({TE, VE, OE}), "bytes": NONE, "bytearray": NONE},
     "builtins.bytearray": {"ANY": E({TE, VE, OE}), "bytes": NONE, "bytearray": NONE},
     "builtins.enumerate": {"ANY": E({TE}), "tuple": NONE, "list": NONE, "iterator": NONE, "Iterable": NONE},
